@@ -268,9 +268,24 @@ fn structural(ctx: &'static Ctx) {
                 cases.push((li, V::A((0..n).map(|i| crate::refmodel::descriptor(i, 16)).collect()), format!("descriptors({})", n)));
                 cases.push((li, V::A((0..n).map(|i| crate::refmodel::param(-7 - (i as i64 % 3), PUBLIC_KEY)).collect()), format!("params({})", n)));
                 cases.push((li, V::A((0..n).map(|_| V::t("packed")).collect()), format!("formats({})", n)));
+                let reg = ["packed", "none", "fido-u2f", "tpm", "android-key", "android-safetynet", "apple"];
+                cases.push((li, V::A((0..n).map(|i| V::t(reg[i % reg.len()])).collect()), format!("registered-formats({})", n)));
+                cases.push((li, V::A((0..n).map(|i| V::t(reg[(n - 1 - i) % reg.len()])).collect()), format!("registered-formats-reversed({})", n)));
                 cases.push((li, V::A((0..n).map(|i| V::U(i as u64)).collect()), format!("ints({})", n)));
                 cases.push((li, V::M((0..n).map(|i| (V::t(&format!("k{:03}", i)), V::U(i as u64))).collect()), format!("textmap({})", n)));
                 cases.push((li, V::M((0..n).map(|i| (V::U(i as u64), V::U(i as u64))).collect()), format!("intmap({})", n)));
+            }
+            // sequences of special-role characters (joiners, variation selectors, combining marks,
+            // BOM) sliding across the 64 / 128 / 256 byte boundaries
+            for base in [48usize, 112, 240] {
+                for pad in 0..20usize {
+                    for seq in ["\u{2764}\u{fe0f}\u{200d}\u{1f525}", "\u{1f3f3}\u{fe0f}\u{200d}\u{1f308}", "e\u{301}\u{301}\u{200d}", "\u{feff}\u{200f}\u{200d}\u{e9}", "\u{1f468}\u{200d}\u{1f469}\u{200d}\u{1f467}"] {
+                        let mut s = "p".repeat(base + pad);
+                        s.push_str(seq);
+                        s.push_str("tail");
+                        cases.push((li, V::t(&s), format!("special-sequence(base {}, pad {})", base, pad)));
+                    }
+                }
             }
             // very long lists of short entries (counters, capacity arithmetic at 8/16-bit boundaries)
             for n in [254usize, 255, 256, 257, 300, 1000, 3000] {
